@@ -2,7 +2,6 @@ package rules
 
 import (
 	"fmt"
-	"go/ast"
 	"regexp"
 	"strings"
 
@@ -204,7 +203,9 @@ func checkHandleConn(c *Ctx, prop string, wantLabel, wantAuth bool) {
 // authenticated encrypted stream, or a plaintext stream when that is allowed.
 func checkReadStream(c *Ctx, prop string) {
 	fn := c.MustFunc("Memberlist.readStream")
-	x := c.flow(fn, map[string]string{})
+	// the reader and its decrypt step are explored as one unit: a check may sit on either
+	// side of the call
+	x := c.flowWith(fn, map[string]string{}, []string{"Memberlist.decryptRemoteState"})
 	rule := "stream reader: returns without error only if the stream was encrypted, encryption is configured and decryption succeeded - or the stream was plaintext and not (encryption configured and incoming verification on)"
 	c.Rule(rule)
 	n := 0
@@ -223,10 +224,10 @@ func checkReadStream(c *Ctx, prop string) {
 		enc, hasEnc := ex.Cube["encOn"]
 		switch {
 		case typ == "encryptMsg":
-			_, dv, okd := atomPS(ex.Cube, "m.decryptRemoteState(", "#1==nil")
+			_, dv, okd := atomPS(ex.Cube, "decryptPayload(", "#1==nil")
 			ok = hasEnc && enc == "T" && okd && dv == "T"
 			why = "encrypted stream accepted without configured encryption / successful decryption"
-			if r0 := untok(ex.Ret[0]); ok && !strings.Contains(r0, "decryptRemoteState(") && !strings.HasPrefix(r0, "decompressBuffer(") {
+			if r0 := untok(ex.Ret[0]); ok && !strings.Contains(r0, "decryptPayload(") && !strings.HasPrefix(r0, "decompressBuffer(") {
 				ok, why = false, "message type not taken from the decrypted plaintext"
 			}
 		case typ != "" && !gea.EnumIs(typ, "encryptMsg"):
@@ -238,13 +239,9 @@ func checkReadStream(c *Ctx, prop string) {
 		c.Check(prop+"/stream-reader/returns", rule, ex.Pos, ok, why+" {"+untok(gea.CubeString(ex.Cube))+"}")
 	}
 	c.Floor("successful exits of the stream reader", n, 3)
-	c.flowMay(x, prop+"/stream-reader/decrypt-args", "stream reader: decryption gets the connection's reader and the accepted label", func(e *gea.Effect) bool { return e.Class == "CALL:Memberlist.decryptRemoteState" },
-		func(e *gea.Effect) (bool, string) {
-			return e.Detail["arg1"] == "streamLabel", "label argument " + e.Detail["arg1"]
-		})
-	// decryptRemoteState: keys, ciphertext and associated data
-	dr := c.MustFunc("Memberlist.decryptRemoteState")
-	xd := c.flow(dr, map[string]string{})
+	// the decrypt step: keys, ciphertext and associated data (streamLabel is the reader's
+	// own parameter: the label it was asked to accept)
+	xd := x
 	nd := c.flowMay(xd, prop+"/stream-decrypt/args", "stream decryption: all installed keys; ciphertext = bytes after the 5-byte header; associated data = message type byte + 4-byte length + stream label",
 		func(e *gea.Effect) bool { return e.Class == "CALL:decryptPayload" }, func(e *gea.Effect) (bool, string) {
 			d := e.Detail
@@ -269,35 +266,19 @@ func checkReadStream(c *Ctx, prop string) {
 // plaintext is post-processed.
 func checkDecryptHelper(c *Ctx, prop string) {
 	p := c.P
-	dm := c.MustFunc("decryptMessage")
-	xm := c.flow(dm, map[string]string{})
+	// the decrypt pipeline is explored as one unit: decryptPayload with the per-key helper
+	// (decryptMessage on the reviewed tree) and any helper extracted later followed in place
+	dp := c.MustFunc("decryptPayload")
+	xp := c.flowWith(dp, map[string]string{}, []string{"decryptMessage"})
 	rule := "decryption returns plaintext only from a successful AEAD.Open under a supplied key with the caller's associated data"
 	c.Rule(rule)
-	no := c.flowMay(xm, prop+"/decrypt/open-args", "AEAD.Open gets nonce and ciphertext from the message and the caller's associated data", func(e *gea.Effect) bool { return e.Class == "AEAD:Open" },
+	no := c.flowMay(xp, prop+"/decrypt/open-args", "AEAD.Open gets nonce and ciphertext from the message and the caller's associated data", func(e *gea.Effect) bool { return e.Class == "AEAD:Open" },
 		func(e *gea.Effect) (bool, string) {
 			d := e.Detail
 			return d["arg3"] == "data" && strings.HasPrefix(untok(d["arg1"]), "msg[1:13]") && strings.HasPrefix(untok(d["arg2"]), "msg[13:]"), fmt.Sprintf("Open(_, %s, %s, %s)", untok(d["arg1"]), untok(d["arg2"]), d["arg3"])
 		})
 	c.Floor("AEAD.Open calls", no, 1)
-	for _, ex := range xm.Exits {
-		if len(ex.Ret) == 2 && ex.Ret[1] == "nil" {
-			ov, ok := "", false
-			for k, v := range ex.Cube {
-				if u := untok(k); strings.Contains(u, ".Open(") && strings.HasSuffix(u, "#1==nil") {
-					ov, ok = v, true
-				}
-			}
-			c.Check(prop+"/decrypt/plaintext-only-after-open", rule, ex.Pos, ok && ov == "T" && ex.Seen["AEAD:Open"] > 0 && strings.Contains(untok(ex.Ret[0]), ".Open("), "returns "+untok(ex.Ret[0])+" without a successful Open")
-		}
-	}
-	dp := c.MustFunc("decryptPayload")
-	xp := c.flow(dp, map[string]string{})
-	// successful returns: value must derive from decryptMessage's result on its success edge
-	type succ struct {
-		ret  string
-		cube map[string]string
-		pos  ast.Node
-	}
+	// successful returns: the value must derive from Open's result on its success edge
 	var rets []string
 	distinct := map[string]map[string]string{}
 	for _, ex := range xp.Exits {
@@ -310,9 +291,14 @@ func checkDecryptHelper(c *Ctx, prop string) {
 		if !succ {
 			continue
 		}
-		_, dv, ok := atomPS(ex.Cube, "decryptMessage(", "#1==nil")
+		dv, ok := "", false
+		for k, v := range ex.Cube {
+			if u := untok(k); strings.Contains(u, ".Open(") && strings.HasSuffix(u, "#1==nil") {
+				dv, ok = v, true
+			}
+		}
 		r := untok(ex.Ret[0])
-		c.Check(prop+"/decrypt/payload-only-after-message", rule, ex.Pos, ok && dv == "T" && strings.Contains(r, "decryptMessage("), "decryptPayload returns "+r+" without a successful decryptMessage")
+		c.Check(prop+"/decrypt/plaintext-only-after-open", rule, ex.Pos, ok && dv == "T" && ex.Seen["AEAD:Open"] > 0 && strings.Contains(r, ".Open("), "decryptPayload returns "+r+" without a successful Open")
 		if _, seen := distinct[r]; !seen {
 			distinct[r] = ex.Cube
 			rets = append(rets, r)
